@@ -118,7 +118,6 @@ struct optional {
     // clang-format off
         requires (
                     is_constructible_v<T, U const&>
-            and not is_same_v<remove_cv_t<U>, bool>
             and not is_constructible_v<T, optional<U>&>
             and not is_constructible_v<T, optional<U> const&>
             and not is_constructible_v<T, optional<U> &&>
@@ -149,7 +148,6 @@ struct optional {
     // clang-format off
         requires (
                     is_constructible_v<T, U&&>
-            and not is_same_v<remove_cv_t<U>, bool>
             and not is_constructible_v<T, optional<U>&>
             and not is_constructible_v<T, optional<U> const&>
             and not is_constructible_v<T, optional<U> &&>
